@@ -183,6 +183,7 @@ impl SendTrackBuilder {
 			effects: self.effects,
 			input: vec![Frame::ZERO; internal_buffer_size],
 			internal_buffer_size,
+			sample_rate: 0,
 		};
 		let handle = SendTrackHandle {
 			id,
